@@ -9,6 +9,8 @@
 (B) multi-valued order: every name the RFC lets repeat, three values, order preserved.
 (C) E-hist: every call sequence of length <= d over a 12-call menu (add of repeated / distinct names, item assignment,
     add_component + descend / ascend); model = plain tree of (NAME, values in insertion order).
+(D) values zoned by a VTIMEZONE the caller built through the API (tzinfo from Timezone.to_tz with and without provider
+    lookup), in 6 date-time properties, the calendar built once or twice in the same process, both providers.
 Known finding `C02-list-mixed-zones` (open): one date list holding date-times of different zones is emitted under the
 last zone's TZID (the list type carries a single TZID).
 """
@@ -468,8 +470,76 @@ def run_calls(case):
             "outcome": "calls-ok" if not fails else "FAIL", "fails": fails}
 
 
+# ---------------------------------------------------------------- (D) values zoned by a VTIMEZONE the caller built
+CUSTOM_ID = "Custom/C02-Office"
+CUSTOM_PROPS = ("dtstart", "dtend", "due", "recurrence-id", "rdate", "exdate")
+
+
+def custom_vtimezone(dst):
+    vt = Timezone()
+    vt.add("tzid", CUSTOM_ID)
+    st = TimezoneStandard()
+    st.add("dtstart", datetime(1970, 10, 25, 3))
+    st.add("tzoffsetfrom", timedelta(hours=4 if dst else 3))
+    st.add("tzoffsetto", timedelta(hours=3))
+    st.add("tzname", "OST")
+    if dst:
+        st.add("rrule", {"freq": "yearly", "bymonth": 10, "byday": "-1SU"})
+        dl = TimezoneDaylight()
+        dl.add("dtstart", datetime(1970, 3, 29, 2))
+        dl.add("tzoffsetfrom", timedelta(hours=3))
+        dl.add("tzoffsetto", timedelta(hours=4))
+        dl.add("tzname", "ODT")
+        dl.add("rrule", {"freq": "yearly", "bymonth": 3, "byday": "-1SU"})
+        vt.add_component(dl)
+    vt.add_component(st)
+    return vt
+
+
+def run_custom(case):
+    """('custom', provider, how the tzinfo is obtained, dst?, property, n calendars built one after the other)"""
+    _, provider, how, dst, pname, rounds = case
+    env.use_provider(provider)
+    fails = []
+    trans = 0
+    for rnd in range(rounds):
+        vt = custom_vtimezone(dst)
+        tz = vt.to_tz() if how == "to_tz" else vt.to_tz(tzp, lookup_tzid=False)
+        wall = datetime(2024, 7, 1, 9, 30)
+        value = wall.replace(tzinfo=tz) if provider == "zoneinfo" else tz.localize(wall)
+        want_off = timedelta(hours=4 if dst else 3)
+        cal = Calendar()
+        cal.add("version", "2.0")
+        cal.add("prodid", "c02")
+        cal.add_component(vt)
+        comp = Todo() if pname == "due" else Event()
+        comp.add("uid", "u")
+        comp.add(pname, [value] if pname in ("rdate", "exdate") else value)
+        cal.add_component(comp)
+        data = cal.to_ical()
+        trans += 2
+        line = [ln for ln in data.decode().replace("\r\n ", "").split("END:VTIMEZONE")[-1].split("\r\n") if ln.upper().startswith(pname.upper())]
+        if len(line) != 1 or f";TZID={CUSTOM_ID}:" not in line[0]:
+            fails.append(fail("custom:line-lacks-own-TZID", case, f"{pname.upper()};TZID={CUSTOM_ID}:20240701T093000", line))
+        try:
+            back = Calendar.from_ical(data)
+            got = back.subcomponents[-1][pname.upper()]
+            got = got.dts[0].dt if pname in ("rdate", "exdate") else got.dt
+            trans += 1
+        except Exception as e:  # noqa: BLE001
+            fails.append(fail("custom:parse-raises", case, "a calendar", f"{type(e).__name__}: {e}"))
+            break
+        obs = (got.replace(tzinfo=None), got.utcoffset())
+        if obs != (wall, want_off):
+            fails.append(fail("custom:zoned-value-does-not-come-back", case, (str(wall), str(want_off), f"round {rnd + 1}"),
+                              (str(obs[0]), str(obs[1]))))
+            break
+    return {"state": ("custom", provider, how, dst, pname, rounds, len(fails)), "trans": trans, "nontrivial": True,
+            "outcome": "custom-ok" if not fails else "FAIL", "fails": fails}
+
+
 def run_case(case):
-    return {"prop": run_prop, "multi": run_multi, "calls": run_calls}[case[0]](case)
+    return {"prop": run_prop, "multi": run_multi, "calls": run_calls, "custom": run_custom}[case[0]](case)
 
 
 replay = run_case
@@ -481,7 +551,7 @@ def run(ctx):
                 "date / floating / UTC / zoned date-times, durations, periods, date lists incl. periods and mixed zones) x 5 "
                 "parameter maps x containers (2 from the RFC + X-COMP) x paths {add, item assignment, setter} x 2 providers; (B) all "
                 f"6 insertion orders of 3 values for 12 repeatable names; (C) all call sequences of length <= {depth} over a 12-call "
-                "menu. non-trivial = every case (each builds, serialises, parses and compares).")
+                "menu; (D) zoned values of a caller-built VTIMEZONE x 6 properties x 2 ways to get the tzinfo x {fixed, DST} x 1-2 rounds. non-trivial = every case (each builds, serialises, parses and compares).")
     ctx.bounds = {"names": len(RP.PROPS), "params": len(PARAMS), "call_depth": depth}
     ctx.assumptions += ["component.decoded() is not used as an observer (the library marks it unfinished); typed accessors are",
                         "X- properties are given text values only; ATTACH as BINARY is not generated (alternates: DATE, PERIOD, DATE-TIME)",
@@ -511,5 +581,11 @@ def run(ctx):
         for n in range(0, depth + 1):
             for seq in itertools.product(range(len(CALLS)), repeat=n):
                 yield ("calls", seq)
+        for provider in env.PROVIDERS:
+            for how in ("to_tz", "to_tz-no-lookup"):
+                for dst in (False, True):
+                    for pname in CUSTOM_PROPS:
+                        for rounds in (1, 2):
+                            yield ("custom", provider, how, dst, pname, rounds)
 
     ctx.explore("properties + order + call sequences", gen, run_case)
